@@ -35,6 +35,8 @@ Rules implemented (section 4.6):
   timeout  idle: no packet for idle_timeout seconds; hard: hard_timeout seconds since insertion; a packet
            refreshes the idle clock only.
 """
+import copy
+
 from . import of10_match as M
 from . import of10_tablemsgs as W
 
@@ -66,6 +68,10 @@ class Entry(object):
   @property
   def effective_priority(self):
     return INF if M.is_exact(self.match) else self.priority
+
+  def action_list(self):
+    """[port | ("other", type)] in order"""
+    return [a[1] if a[0] == "output" else ("other", a[1]) for a in W.parse_actions(self.actions)]
 
   def outputs_to(self, port):
     return any(a[0] == "output" and a[1] == port for a in W.parse_actions(self.actions))
@@ -138,6 +144,24 @@ class RefTable(object):
     specification leaves the overlap verdict open (exact-match vs wildcarded entry with equal priority
     fields), so that the model follows the switch there."""
     cmd = fm["command"]
+    if fm.get("bad_action"):
+      # the action list contains a type the switch cannot execute: the flow_mod must be refused
+      # (OFPET_BAD_ACTION/OFPBAC_BAD_TYPE, or OFPET_FLOW_MOD_FAILED/OFPFMFC_UNSUPPORTED) and change
+      # nothing.  Which error wins when the command is also wrong for another reason is not specified.
+      # DELETE carries no actions to validate: the switch may ignore them, or refuse (bad_refused).
+      if cmd in (W.OFPFC_DELETE, W.OFPFC_DELETE_STRICT) and not fm.get("bad_refused"):
+        pass
+      else:
+        alts = [(W.OFPET_BAD_ACTION, {W.OFPBAC_BAD_TYPE}), (W.OFPET_FLOW_MOD_FAILED, {W.OFPFMFC_UNSUPPORTED})]
+        saved = copy.deepcopy(self.entries)
+        plain = dict(fm)
+        plain["bad_action"] = False
+        for x in self.flow_mod(now, plain, skip_overlap, refused):
+          if x["kind"] == "error":
+            alts.append((x["etype"], x["codes"]))
+        self.entries = saved
+        return [{"kind": "error", "xid": fm["xid"], "etype": alts[0][0], "codes": alts[0][1], "alts": alts,
+                 "optional": False, "detail": "bad-action"}]
     if cmd == W.OFPFC_ADD:
       return self._add(now, fm, skip_overlap, refused)
     if cmd in (W.OFPFC_MODIFY, W.OFPFC_MODIFY_STRICT):
